@@ -67,18 +67,13 @@ def check_cp(st, env, name, E, th, ph):
             ok = True
             for z, w in zip(els, ws):
                 v, e = L.call(base, z, *args)
-                if e is not None or v == 0.0:
-                    if e is None:
-                        ok = "zero"   # an elemental value that is legitimately 0 (polarised forms): compound result is then 0
-                    else:
-                        ok = False
+                if e is not None:
+                    ok = False      # an element for which the elemental function fails makes the compound call fail
                     failing = z
                     break
-                s += v * w
-            if ok is True:
+                s += v * w          # an elemental value that is legitimately 0 (polarised forms at theta=pi/2, phi=0) is simply added
+            if ok:
                 exp = s
-            elif ok == "zero":
-                exp = 0.0
         case = dict(config=env.config, fn=fn, compound=name, args=list(args))
         if exp is None:
             st.cls("cp_error_expected")
